@@ -5,7 +5,7 @@ import itertools
 
 from ..program import AnalysisError, walk_local, dotted
 from ..analysis import Spec, src, const_value
-from ..rules import (substitute_locals, parent_map, template_sites, inside, before, GWF, EXC, mpt, need_func, stores_to, is_const, kw,
+from ..rules import (canon, cond_branches, substitute_locals, parent_map, template_sites, inside, before, GWF, EXC, mpt, need_func, stores_to, is_const, kw,
                      parent_map, raise_class, explicit_exits,
                      strip_wrappers)
 from . import common
@@ -153,13 +153,12 @@ def warning_conditions(prog, an, rep):
     R = 'C15.DEP.lossy-detection'
     f = need_func(an, CMD + '._reset')
     c = an.cfg(f)
-    stores = [(st, v) for st, v in stores_to(f, 'lossy_reset')]
-    if not stores:
-        lossy = None
-        for n in c.nodes.values():
-            if n.kind == 'raise_stmt' and isinstance(n.ast.exc, ast.Name):
-                lossy = n.ast.exc.id
-        stores = stores_to(f, lossy) if lossy else []
+    # the warning variable: the local that is raised
+    lossy = None
+    for n in c.nodes.values():
+        if n.kind == 'raise_stmt' and isinstance(n.ast.exc, ast.Name):
+            lossy = n.ast.exc.id
+    stores = stores_to(f, lossy) if lossy else []
     inits = [st for st, v in stores if v is not None and is_const(v, None)]
     sets = [st for st, v in stores if isinstance(v, ast.Call) and
             (prog.callee(f, v)[1] or '').endswith('.LossyResetWarning')]
@@ -180,40 +179,60 @@ def warning_conditions(prog, an, rep):
         outer = pm[outer]
         if isinstance(outer, ast.For):
             break
+    wb_ok = isinstance(outer, ast.For) and any(
+        isinstance(strip_wrappers(v), ast.Call) and an.call_matches(
+            f, strip_wrappers(v), Spec.func(I + '.get_integration_branches'))
+        for _, v in stores_to(f, src(outer.iter)) if v is not None)
     rep.check(isinstance(inner, ast.For) and isinstance(outer, ast.For) and
-              src(outer.iter) == 'wbranches', R, f.qname + ': every commit '
+              wb_ok, R, f.qname + ': every commit '
               'of every integration branch is examined', f.where(sets[0]),
               'the warning is not set inside loops over wbranches / their '
               'commits')
     if not isinstance(inner, ast.For):
         return
     rev = inner.target.id
-    # what the inner loop ranges over: commits of the branch not on dst
-    itv = strip_wrappers(inner.iter, names=('reversed', 'list'))
-    if isinstance(itv, ast.Name):
-        vs = [v for _, v in stores_to(f, itv.id) if v is not None]
-        itv = strip_wrappers(vs[0], names=('reversed', 'list')) if vs \
-            else itv
+    B = outer.target.id
+    # what the inner loop ranges over: commits of the branch not on its
+    # destination
+    itv = strip_wrappers(substitute_locals(f, inner.iter),
+                         names=('reversed', 'list', 'tuple'))
     rep.check(isinstance(itv, ast.Call) and
               isinstance(itv.func, ast.Attribute) and
               itv.func.attr == 'get_commit_diff' and
-              src(itv.func.value) == outer.target.id and
-              [src(a) for a in itv.args] == ['dst'], R, f.qname +
-              ': examines the commits of the integration branch that are '
-              'not on its destination', f.where(inner), 'commits come from '
-              '%s' % src(inner.iter))
+              canon(f, itv.func.value) == B and
+              [canon(f, a) for a in itv.args] == [B + '.dst_branch'], R,
+              f.qname + ': examines the commits of the integration branch '
+              'that are not on its destination', f.where(inner),
+              'commits come from %s' % src(inner.iter))
+    # the set of commits known to come from the source branch
+    feat = None
+    for st in walk_local(outer, include_root=False):
+        if isinstance(st, ast.Assign) and len(st.targets) == 1 and \
+                isinstance(st.targets[0], ast.Name) and \
+                canon(f, st.value) == 'set(%s.src_branch.get_commit_diff('\
+                '%s.dst_branch))' % (B, B):
+            feat = st.targets[0].id
+    rep.check(feat is not None, R, f.qname + ': feature set = commits of '
+              'the source branch not on the destination', f.where(outer),
+              'no set(<branch>.src_branch.get_commit_diff(<branch>.'
+              'dst_branch)) is built per integration branch')
+    if feat is None:
+        return
+    par = '%s.parents[0]' % rev
+    T = {
+        'in-feature': '%s in %s' % (rev, feat),
+        'robot': '%s.author == %s.settings.robot' % (rev, f.params[0]),
+        'single-parent': 'len(%s.parents) == 1' % rev,
+        'parent-on-dst': '%s.dst_branch.includes_commit(%s)' % (B, par),
+        'parent-in-feature': '%s in %s' % (par, feat),
+    }
     filters = {
         'commit of the current source branch':
-            an.branch_nodes(f, lambda e: src(e) == '%s in feature' % rev,
-                            False),
-        'robot commit':
-            an.branch_nodes(f, lambda e: src(e) ==
-                            '%s.author == job.settings.robot' % rev, False),
+            cond_branches(an, f, T['in-feature'], False),
+        'robot commit': cond_branches(an, f, T['robot'], False),
         'made on top of the integration branch (or a merge)':
-            an.branch_nodes(f, lambda e: src(e) ==
-                            'len(%s.parents) == 1' % rev, False) +
-            an.branch_nodes(f, lambda e: src(e) ==
-                            'dst.includes_commit(parent)', False),
+            cond_branches(an, f, T['single-parent'], False) +
+            cond_branches(an, f, T['parent-on-dst'], False),
     }
     for label, g in filters.items():
         rep.evaluated()
@@ -241,12 +260,10 @@ def warning_conditions(prog, an, rep):
               'through the filters without setting the warning (manual '
               'work silently discarded)', path=c.describe_path(path))
     # the only ways to skip a commit are the three documented filters
-    skip_gates = an.branch_nodes(
-        f, lambda e: src(e) == '%s in feature' % rev, True) + \
-        an.branch_nodes(f, lambda e: src(e) ==
-                        '%s.author == job.settings.robot' % rev, True) + \
-        an.branch_nodes(f, lambda e: src(e) in (
-            'parent in feature', 'dst.includes_commit(parent)'), True)
+    skip_gates = cond_branches(an, f, T['in-feature'], True) + \
+        cond_branches(an, f, T['robot'], True) + \
+        cond_branches(an, f, T['parent-in-feature'], True) + \
+        cond_branches(an, f, T['parent-on-dst'], True)
     for cn in conts:
         ok2 = True
         p2 = None
@@ -275,24 +292,10 @@ def warning_conditions(prog, an, rep):
                   'forgotten')
     # the "once on the feature branch" filter records the commit
     adds = [n for n in c.nodes.values() if n.kind == 'stmt' and
-            src(n.ast) == 'feature.add(%s)' % rev]
-    fv = [v for _, v in stores_to(f, 'feature') if v is not None]
-    rep.check(len(fv) == 1 and src(fv[0]) == 'set(src.get_commit_diff(dst))'
-              and len(adds) == 1, R, f.qname + ': feature set = commits of '
-              'the source branch, extended by earlier versions of it',
-              f.where(), 'feature set is %s' % [src(v) for v in fv])
-    par = [v for _, v in stores_to(f, 'parent') if v is not None]
-    rep.check(len(par) == 1 and src(par[0]) == '%s.parents[0]' % rev, R,
-              f.qname + ': the parent tested is the commit\'s only parent',
-              f.where(), 'parent is %s' % [src(v) for v in par])
-    sd = sorted(src(v) for n in walk_local(outer, include_root=False)
-                if isinstance(n, ast.Assign) and
-                isinstance(n.targets[0], ast.Tuple)
-                for v in [n.value])
-    rep.check(sd == ['(%s.src_branch, %s.dst_branch)' % (
-        outer.target.id, outer.target.id)], R, f.qname + ': src / dst are '
-        'those of the integration branch examined', f.where(outer),
-        'src, dst = %s' % sd)
+            src(n.ast) == '%s.add(%s)' % (feat, rev)]
+    rep.check(len(adds) == 1, R, f.qname + ': the feature set is extended '
+              'by earlier versions of the source branch', f.where(),
+              '%d statements add the commit to the feature set' % len(adds))
 
 
 def force_wiring(prog, an, rep):
@@ -464,10 +467,9 @@ def own_names(prog, an, rep):
         return
     dv = loops[0].target.id
     fm = template_sites(f)
-    sv = [src(v) for _, v in stores_to(f, 'src') if v is not None]
+    sv = [canon(f, a) for a in fm[0][2]] if len(fm) == 1 else []
     ok = len(fm) == 1 and fm[0][1] == 'w/{}/{}' and \
-        [src(a) for a in fm[0][2]] == [dv + '.version', 'src'] and \
-        sv == ['job.git.src_branch']
+        sv == [dv + '.version', f.params[0] + '.git.src_branch']
     rep.evaluated()
     rep.check(ok, R, f.qname + ': names are w/<target version>/<this '
               'source branch>', f.where(), 'names built by %s with src=%s' %
